@@ -23,8 +23,11 @@ RULE = ("(A) polyline paths: 3-7 spine points with turning angles from {0, +-20,
         "from the centre line or beyond a cap plane must be outside, points on the outer bisector of every joint are "
         "judged by the exact join geometry (bevel chord, miter point, natural extension, round radius); band = 3 x "
         "tolerance + 1e-9 x scale; (3) simple paths written to GDSII and OASIS PATH records and re-loaded cover the same "
-        "decidable samples (band + 2 grid units). Non-trivial: >= 3 spine points, a non-zero offset or a taper, and a joint "
-        "turning more than 10 degrees or a bend; distinct by case hash")
+        "decidable samples (band + 2 grid units); a simple path whose end type an OASIS PATH record cannot hold must be saved as "
+        "its outline instead, which is probed the same way; (D) long simple paths: zigzag centre lines of 8189..20000 points "
+        "(more than one GDSII XY record holds), with or without a constant offset, saved and re-loaded: every centre-line "
+        "point within half a grid unit of the spine displaced by the offset (my own mitred offset polyline), same width. Non-trivial: >= 3 spine points, a non-zero offset or a taper, and a joint "
+        "turning more than 10 degrees or a bend, or a long-path case; distinct by case hash")
 ASSUMPTIONS = ["pbt/pathmodel.py is the trusted region model; samples in the undecidable band around the boundary are not used",
                "bend radii between 'clearly fits' (tangent length <= 0.8 x room) and 'clearly does not' (>= 1.25 x) are not generated",
                "Smooth joins are bounded between the bevel chord and 1.05 x the miter point; Smooth caps within 1.6 x half-width of the end"]
@@ -447,7 +450,61 @@ def check_history(ctx, case):
     ctx.stats.note(case, len(case["calls"]) >= 2 and any(c["w"] or c["o"] for c in case["calls"]), labels)
 
 
+@st.composite
+def long_case(draw):
+    """a simple path whose centre line has about 8190 points (the most one GDSII XY record holds) or more: zigzag spine,
+    constant width, zero or constant offset, saved as PATH records and re-loaded"""
+    n = draw(st.sampled_from([8189, 8190, 8191, 8192, 8193, 9000, 16380, 16381, 16382, 20000]))
+    return {"kind": "long", "n": n, "x0": float(draw(st.integers(-50, 50))), "y0": float(draw(st.integers(-50, 50))),
+            "dx": draw(st.sampled_from([0.5, 0.8])), "dy": draw(st.sampled_from([0.3, 0.7])), "w": draw(st.sampled_from([0.1, 0.2])),
+            "o": draw(st.sampled_from([0.0, 0.0, 0.05, -0.1])), "end": draw(st.sampled_from([0, 2])), "io": draw(st.sampled_from(["gds", "gds", "oas"]))}
+
+
+def check_long(ctx, case):
+    n, io = case["n"], case["io"]
+    pts = [(case["x0"] + case["dx"] * i, case["y0"] + (case["dy"] if i % 2 else 0.0)) for i in range(n)]
+    el = {"w": case["w"], "o": case["o"], "layer": 1, "join": 0, "end": case["end"], "ext": [0.0, 0.0], "bend": 0, "radius": 0.0}
+    path = os.path.join(ctx.tmpdir, "c07long.%s" % io)
+    lines = new_lines("p", pts[0], [el], 0.01, True)
+    lines.append("fp seg p 0 %d %s - -" % (n - 1, " ".join(fl(c) for q in pts[1:] for c in q)))
+    lines += ["cell new c %s" % hx("TOP"), "cell add c fp p", "lib new l %s %s %s" % (hx("L"), fl(1e-6), fl(1e-9)), "lib add l c"]
+    if io == "gds":
+        lines += ["io write_gds l %s 0" % path, "io read_gds r %s 0 %s N" % (path, fl(1e-4))]
+    else:
+        lines += ["io write_oas l %s %s 6 0" % (path, fl(0)), "io read_oas r %s 0 %s" % (path, fl(1e-4))]
+    lines += ["hier get_flexpaths r.0 0 0 0 0 0 q"]
+    outs = ctx.run(lines, case)
+
+    def fail(msg):
+        raise Violation(msg, case, None, None, lines[:2] + ["... (%d lines)" % len(lines)])
+    rd = [o for o in outs if isinstance(o, dict) and "ncells" in o][0]
+    res = [o for o in outs if isinstance(o, dict) and "result" in o and "err" not in o][0]["result"]
+    if rd["err"] != 0:
+        fail("re-loading the %s file failed with error %d" % (io, rd["err"]))
+    if len(res) != 1:
+        fail("%s: %d paths re-loaded for a one-element simple path of %d points" % (io, len(res), n))
+    # centre line: the spine displaced by the offset, mitred at every corner (every corner of the zigzag is far from collinear)
+    import gdsmodel
+    want = gdsmodel.offset_polyline(pts, case["o"]) if case["o"] else pts
+    got = res[0]["spine"]
+    if len(got) != len(want):
+        fail("%s PATH record(s): %d centre-line points re-loaded, the path has %d" % (io, len(got), len(want)))
+    worst, wi = 0.0, 0
+    for i, (a, b) in enumerate(zip(got, want)):
+        d = max(abs(a[0] - b[0]), abs(a[1] - b[1]))
+        if d > worst:
+            worst, wi = d, i
+    if worst > 0.5e-3 + 1e-6:
+        fail("%s PATH record(s): centre-line point %d re-loads as %s, the path has %s" % (io, wi, tuple(got[wi]), tuple(round(v, 6) for v in want[wi])))
+    gw = 2 * res[0]["elements"][0]["hwo"][0][0]
+    if abs(gw - case["w"]) > 1.1e-3:
+        fail("%s PATH record(s): width %r, the path has %r" % (io, gw, case["w"]))
+    ctx.stats.note(case, True, ["long", "long_" + io, "long_n_%d" % n, "long_offset" if case["o"] else "long_centered"])
+
+
 def check(ctx, case, ignore_known=False):
+    if case["kind"] == "long":
+        return check_long(ctx, case)
     if case["kind"] == "poly":
         return check_poly(ctx, case, ignore_known)
     if case["kind"] == "smooth":
@@ -458,7 +515,8 @@ def check(ctx, case, ignore_known=False):
 def run_worker(ctx):
     q = ctx.tier == "quick"
     vs = []
-    for name, strat, total in (("poly", poly_case(), 6000 if q else 60000), ("smooth", smooth_case(), 1500 if q else 12000), ("history", history_case(), 3000 if q else 30000)):
+    for name, strat, total in (("poly", poly_case(), 6000 if q else 60000), ("smooth", smooth_case(), 1500 if q else 12000), ("history", history_case(), 3000 if q else 30000),
+                               ("long", long_case(), 48 if q else 400)):
         v = ctx.hypothesis(check, strat, ctx.share(total), name)
         if v:
             vs.append(v)
